@@ -94,10 +94,31 @@ def _modfile():
     return mod
 
 
+_BINDIR = None
+
+
+def _bindir():
+    """Per-process output directory for the driver binaries: checks running at the same time against different
+    trees (VERIF_REPO) must never execute each other's build. Removed at exit; leftovers of dead processes are
+    swept."""
+    global _BINDIR
+    if _BINDIR is None:
+        os.makedirs(BUILD, exist_ok=True)
+        for d in os.listdir(BUILD):
+            m = re.match(r"bin-(\d+)$", d)
+            if m and not os.path.exists("/proc/%s" % m.group(1)):
+                shutil.rmtree(os.path.join(BUILD, d), ignore_errors=True)
+        _BINDIR = os.path.join(BUILD, "bin-%d" % os.getpid())
+        os.makedirs(_BINDIR, exist_ok=True)
+        import atexit
+        atexit.register(shutil.rmtree, _BINDIR, True)
+    return _BINDIR
+
+
 def build_harness(race=False, tags="verif"):
     """go build the vdriver against REPO's current working tree. Returns the binary path."""
     mod = _modfile()
-    out = os.path.join(BUILD, "vdriver" + ("-race" if race else "") + ("" if tags == "verif" else "-" + (tags or "notag")))
+    out = os.path.join(_bindir(), "vdriver" + ("-race" if race else "") + ("" if tags == "verif" else "-" + (tags or "notag")))
     cmd = ["go", "build", "-modfile=" + mod, "-o", out]
     if tags:
         cmd += ["-tags", tags]
@@ -135,6 +156,7 @@ def run_driver(binary, args, timeout=3600, env=None, stdout_path=None, check=Tru
     """Run the Go driver. Returns CompletedProcess; raises Inconclusive on timeouts / crashes if check."""
     e = dict(os.environ)
     e["VERIF_SEED"] = str(seed())
+    e["VERIF_REPO_PATH"] = REPO
     if fast_tmp():
         e["TMPDIR"] = fast_tmp()
     if env:
